@@ -552,6 +552,31 @@ func FactsAt(root ast.Node, target ast.Node) []ast.Expr {
 				facts = append(facts, Conjuncts(x.Cond, true)...)
 			}
 		}
+		// a clause of a tagless switch: its own test holds, every earlier clause's tests failed
+		// (for the default clause: all of them failed)
+		if sw, ok := outer.(*ast.BlockStmt); ok && i+1 < len(path) {
+			if ss, ok := path[i+1].(*ast.SwitchStmt); ok && ss.Tag == nil && ss.Body == sw {
+				if cc, ok := inner.(*ast.CaseClause); ok {
+					for _, c := range ss.Body.List {
+						oc := c.(*ast.CaseClause)
+						if oc == cc {
+							if len(cc.List) == 1 {
+								facts = append(facts, Conjuncts(cc.List[0], false)...)
+							}
+							if cc.List != nil {
+								break
+							}
+							continue
+						}
+						if cc.List == nil || oc.Pos() < cc.Pos() {
+							for _, e := range oc.List {
+								facts = append(facts, Conjuncts(e, true)...)
+							}
+						}
+					}
+				}
+			}
+		}
 		var list []ast.Stmt
 		switch x := outer.(type) {
 		case *ast.BlockStmt:
